@@ -28,7 +28,7 @@ def parseBody : List String → Option (Body × List String)
     let token ← tok.toNat?
     let e := if exc == "g" then Exc.generic else if exc == "s" then Exc.serialize else if exc == "c" then Exc.connClosed
              else if exc == "o" then Exc.commOther else Exc.security
-    let outcome := if out == "r" then Outcome.returns .ok else if out == "bs" then Outcome.returns .serializeErr
+    let outcome := if out == "st" then Outcome.returnsStream else if out == "r" then Outcome.returns .ok else if out == "bs" then Outcome.returns .serializeErr
                    else if out == "bo" then Outcome.returns .otherErr else Outcome.raises e (ser == "1")
     let ann ← parseNatList ann
     let tr ← parseNatList tr
